@@ -27,12 +27,12 @@ LATTICES = ["ortho", "ortho", "tiny", "hex60", "hex120", "fcc", "bcc"]
 
 
 @st.composite
-def lattice_atoms(draw, lattices=LATTICES, max_atoms=4):
+def lattice_atoms(draw, lattices=LATTICES, max_atoms=4, min_atoms=1):
     lat = draw(st.sampled_from(lattices))
     a = round(draw(gen.floats(3.0, 5.0)), 3)
     b = round(draw(gen.floats(3.0, 5.0)), 3)
     c = round(draw(gen.floats(2.5, 5.0)), 3)
-    n = draw(st.integers(1, max_atoms))
+    n = draw(st.integers(min_atoms, max_atoms))
     species = draw(st.lists(st.sampled_from(gen.ELEMENTS), min_size=1, max_size=2, unique=True))
     numbers = [draw(st.sampled_from(species)) for _ in range(n)]
     scaled = []
@@ -144,6 +144,13 @@ def call_and_compare(api, fn, inputs, documented=None):
     return outcome
 
 
+def _standardize_rejection(e):
+    """standardize_cell documents its rejections: "Invalid cell: no vertical lattice vector" /
+    "Cell has non-orthogonal lattice vectors" / "This cell cannot be made orthogonal ..."
+    (a cell that is diagonal only up to 1e-9..1e-6 is such a cell: its tolerance is 1e-12)."""
+    return isinstance(e, RuntimeError) and ("ell" in str(e))
+
+
 # --------------------------------------------------------------------------- claim 1: functions of abtem.atoms
 _FUNC_APIS = [
     "orthogonalize_cell",
@@ -176,6 +183,10 @@ def atoms_function_case(draw):
         # documented / implicit precondition: axis-aligned cell (pad_atoms divides by the
         # diagonal; plane != 'xy' goes through standardize_cell)
         atoms = draw(lattice_atoms(lattices=["ortho", "ortho", "tiny"] if api != "pad_atoms" else ["ortho"]))
+    elif api in ("merge_close_atoms", "shrink_cell"):
+        # clustering needs >=2 atoms of every species (scipy linkage rejects a single point)
+        atoms = draw(lattice_atoms(min_atoms=2))
+        atoms["numbers"] = [atoms["numbers"][0]] * len(atoms["numbers"])
     else:
         atoms = draw(lattice_atoms())
     return {
@@ -219,12 +230,12 @@ def check_atoms_functions(case, ctx):
         fn = lambda: abtem.orthogonalize_cell(atoms, box=(abc[0] * k, abc[1], abc[2] * 2))
     elif api == "orthogonalize_cell_plane":
         fn = lambda: abtem.orthogonalize_cell(atoms, plane=case["plane"])
+        documented = _standardize_rejection if spec["lattice"] == "tiny" else None
     elif api == "orthogonalize_cell_noaffine":
         fn = lambda: abtem.orthogonalize_cell(atoms, allow_transform=False)
     elif api == "standardize_cell":
         fn = lambda: abtem.standardize_cell(atoms)
-        # "Invalid cell: no vertical lattice vector" / "Cell has non-orthogonal lattice vectors" / "cannot be made orthogonal"
-        documented = lambda e: isinstance(e, RuntimeError) and ("ell" in str(e))
+        documented = _standardize_rejection
     elif api == "pad_atoms":
         fn = lambda: A.pad_atoms(atoms, margins=round(0.5 + 3 * u[0], 3), directions=["xyz", "xy", "z"][k % 3])
     elif api == "cut_cell":
@@ -233,6 +244,7 @@ def check_atoms_functions(case, ctx):
         fn = lambda: A.rotate_atoms(atoms, axes=["zxz", "xyz", "zyx"][k % 3], angles=(u[0] * 3, u[1] * 3, u[2] * 3), convention=["intrinsic", "extrinsic"][k % 2])
     elif api == "rotate_atoms_to_plane":
         fn = lambda: A.rotate_atoms_to_plane(atoms, case["plane"])
+        documented = _standardize_rejection if spec["lattice"] == "tiny" else None
     elif api == "flip_atoms":
         fn = lambda: A.flip_atoms(atoms, axis=case["axis"])
     elif api == "wrap_with_tolerance":
